@@ -184,11 +184,18 @@ func (k *DNSKEY) ToDS(h uint8) *DS {
 	wire = wire[:n]
 
 	owner := make([]byte, 255)
-	off, err1 := PackDomainName(CanonicalName(k.Hdr.Name), owner, 0, nil, false)
+	off, err1 := PackDomainName(Fqdn(k.Hdr.Name), owner, 0, nil, false)
 	if err1 != nil {
 		return nil
 	}
 	owner = owner[:off]
+	// The canonical form lower-cases the letters of the wire octets, however
+	// they were written; a length octet is at most 63 and so not a letter.
+	for i, c := range owner {
+		if c >= 'A' && c <= 'Z' {
+			owner[i] = c + ('a' - 'A')
+		}
+	}
 	// RFC4034:
 	// digest = digest_algorithm( DNSKEY owner name | DNSKEY RDATA);
 	// "|" denotes concatenation
